@@ -357,11 +357,10 @@ func (r *Router) Silence(dirToE string, from, to time.Duration) (intactToE, lost
 				lostAny++
 			}
 		}
-		if x.Dir == dirToE && !x.Mutated {
-			for _, d := range x.Dlv {
-				if d > from && d <= to {
-					intactToE++
-				}
+		if x.Dir == dirToE && !x.Mutated && len(x.Dlv) > 0 && len(x.Class) > 0 && x.Class[0] == "1rtt" {
+			// only the first copy of a short-header datagram certainly resets the receiver's idle timer
+			if d := x.Dlv[0]; d > from && d <= to {
+				intactToE++
 			}
 		}
 	}
